@@ -1,5 +1,6 @@
 import BoboVerif.Lemmas.RemoteJoin
 import BoboVerif.Lemmas.Net
+import BoboVerif.Lemmas.ClusterRefine
 /-!
 C04 — Replicas converge under every message interleaving.
 
@@ -92,7 +93,7 @@ theorem stale_message_ignored (h : absMsg comp halt upd ph pa id ≤ abs s ph pa
 end conflict_table
 
 /-- the order in which two messages are applied does not matter (commutativity), … -/
-theorem remote_order_irrelevant (a b m₁ m₂ x : Status) :
+theorem remote_order_irrelevant (m₁ m₂ x : Status) :
     join (join x m₁) m₂ = join (join x m₂) m₁ := by
   rw [join_assoc, join_assoc, join_comm m₁ m₂]
 
@@ -135,3 +136,42 @@ example : Quiescent (run (init 2) [.say 0 (active 1 1), .say 1 completed, .deliv
   | 1, 1 => decide
 
 end Bobo.Net
+
+namespace Bobo.ClusterD
+open Bobo.Run Bobo.Decider Bobo.Lattice
+variable {ε : Type}
+
+/-- **C04 on clusters of decider states** (`Model/ClusterD.lean`): for every schedule of inputs at any
+instances and deliveries of any pending message in any order, with or without removal (delays,
+re-ordering across and within links, duplication, re-delivery), once nothing is pending all instances
+hold the same status — same active runs at the same positions, same finished runs — for every run key
+of a known pattern.
+
+The step of the proof that is not yet a Lean theorem is `LocalIsJoin` (local processing changes a key's
+status exactly to the join with what its notification announces); it is an explicit hypothesis here and
+is checked on every local decider call of every scenario by the correspondence harness
+(oracle `local-is-join` in harness/cluster_suite.py).  Remote steps are covered by `remote_is_join`. -/
+theorem cluster_convergence_partial {n : Nat} (c : Cfg ε) (hc : c.caching = true) (hns : NoSing c)
+    (hLJ : LocalIsJoin c) (steps : List (CStep n ε)) (cs : CState n ε)
+    (hrun : crun c (cinit n ε) steps = some cs)
+    (hquiet : ∀ i j, i ≠ j → cs.flight i j = [])
+    (ph pa id : String) (hk : (c.getPattern ph pa).isSome = true) (i j : Fin n) :
+    abs (cs.node i) ph pa id = abs (cs.node j) ph pa id := by
+  obtain ⟨ns, hR, hI⟩ := sim_run c hc hns hLJ ph pa id hk steps (cinit n ε) cs (Bobo.Net.init n)
+    (sim_init ph pa id) Bobo.Net.inv_init hrun
+  have hq : Bobo.Net.Quiescent ns := by
+    intro a b hab
+    refine ⟨?_, hR.pending a b⟩
+    rw [hR.flight a b, hquiet a b hab]; rfl
+  rw [← hR.know i, ← hR.know j, Bobo.Net.quiescent_know_eq ns hI hq i, Bobo.Net.quiescent_know_eq ns hI hq j]
+
+/-- a run completed anywhere is completed everywhere at quiescence (each instance reported it: C05). -/
+theorem completed_everywhere_partial {n : Nat} (c : Cfg ε) (hc : c.caching = true) (hns : NoSing c)
+    (hLJ : LocalIsJoin c) (steps : List (CStep n ε)) (cs : CState n ε)
+    (hrun : crun c (cinit n ε) steps = some cs)
+    (hquiet : ∀ i j, i ≠ j → cs.flight i j = [])
+    (ph pa id : String) (hk : (c.getPattern ph pa).isSome = true) (i j : Fin n)
+    (hdone : abs (cs.node i) ph pa id = completed) : abs (cs.node j) ph pa id = completed := by
+  rw [← cluster_convergence_partial c hc hns hLJ steps cs hrun hquiet ph pa id hk i j]; exact hdone
+
+end Bobo.ClusterD
